@@ -222,11 +222,11 @@ class EngineProc:
         self.p = subprocess.Popen(["/venv/bin/python", "-W", "ignore", os.path.join(VERIF, "harness", "engine_worker.py"), self.engine],
                                   stdin=subprocess.PIPE, stdout=subprocess.PIPE, stderr=subprocess.PIPE, text=True, env=env)
 
-    def call(self, label, F, n_remove, raw=False, timeout=60):
+    def call(self, label, F, n_remove, raw=False, timeout=60, layout=None, prime_n_remove=None):
         import select
         if self.p is None or self.p.poll() is not None:
             self.start()
-        req = {"label": label, "F": [[float(x).hex() for x in r] for r in np.asarray(F, dtype=float)], "n_remove": int(n_remove), "raw": raw}
+        req = {"label": label, "F": [[float(x).hex() for x in r] for r in np.asarray(F, dtype=float)], "n_remove": int(n_remove), "raw": raw, "layout": layout, "prime_n_remove": prime_n_remove}
         try:
             self.p.stdin.write(json.dumps(req) + "\n"); self.p.stdin.flush()
             r, _, _ = select.select([self.p.stdout], [], [], timeout)
